@@ -283,13 +283,17 @@ class Material(MutableMapping[str, str]):
 
     def export(self, f: TextIO) -> None:
         """Write the material back to a file."""
-        f.write(self.shader + '\n\t{\n')
+        shader = self.shader
+        # A bare token may not be empty, start a comment (/) or a directive (#), or contain a delimiter.
+        if not shader or shader[0] in '/#' or any(c in BARE_DISALLOWED for c in shader):
+            shader = f'"{shader}"'
+        f.write(shader + '\n\t{\n')
         for param in self._params.values():
             name = param.name
             value = param.value
-            if any(c in BARE_DISALLOWED for c in name):
+            if not name or name[0] in '/#' or any(c in BARE_DISALLOWED for c in name):
                 name = f'"{name}"'
-            if not value or any(c in BARE_DISALLOWED for c in value):
+            if not value or value[0] in '/#' or any(c in BARE_DISALLOWED for c in value):
                 value = f'"{value}"'
             f.write(f'\t{name} {value}\n')
         for block in self.blocks:
